@@ -400,3 +400,162 @@ def origin_mismatch(handed, pubmid, model_origins):
             if a != b: return f'event {idx} node {i} topic {t}: tags {a} vs model origins {b}'
             if ident is not None and mmid != ident: return f'event {idx} node {i} topic {t}: model frame id {mmid} in a set returned as {ident}'
     return None
+
+# ---------------------------------------------------------------------------------------------- chains: the composition reference (C03 stage C)
+
+def gen_chain_trial(rng):
+    """source -> relay* -> sink, no restarts; every behaviour on every node (hypotheses of C03_net_chain_composition)"""
+    L = rng.randint(2, 5)
+    ups, behs = [[]], []
+    b = {'kind': 'src', 'topics': rng.choice([['main'], ['main'], ['main', 'aux'], ['main', '_h'], ['aux', 'main'], ['_h']])}
+    if rng.random() < 0.4: b['skip'] = sorted(rng.sample(range(8), rng.randint(1, 2)))
+    if rng.random() < 0.25: b['defer'] = True
+    elif rng.random() < 0.15 and b['topics'] == ['main']: b['lone'] = True
+    if rng.random() < 0.2: b['dnone'] = [rng.randrange(6)]
+    if rng.random() < 0.2: b['empty'] = [rng.randrange(6)]
+    behs.append(b)
+    for i in range(1, L):
+        ups.append([i - 1])
+        r = rng.random()
+        b = {'kind': 'pass'} if r < 0.35 else {'kind': 'add', 'name': f'x{i}'} if r < 0.5 else {'kind': 'lone'} if r < 0.6 else \
+            {'kind': 'sum', 'name': f's{i}'} if r < 0.7 else {'kind': 'remove', 'name': 'aux'} if r < 0.8 else {'kind': 'rename', 'frm': 'main', 'to': rng.choice([f'r{i}', '_hid'])}
+        if rng.random() < 0.5: b['skip'] = sorted(rng.sample(range(8), rng.randint(1, 3)))
+        if rng.random() < 0.2: b['empty'] = [rng.randrange(6)]
+        if rng.random() < 0.25: b['defer'] = True
+        if rng.random() < 0.2: b['dnone'] = [rng.randrange(6)]
+        behs.append(b)
+    topo = {'family': 'chain', 'ups': ups, 'behs': behs}
+    style = rng.choice(['flow', 'flow', 'loose', 'chaos', 'starve'])
+    rounds = rng.randint(8, 22)
+    evs, t = [], 1000
+    for _ in range(rounds):
+        t += rng.choice([100, 100, 100, 50, 1, 0, 6000])
+        order = list(range(L)); rng.shuffle(order)
+        if style == 'starve' and rng.random() < 0.5: order = [i for i in order if i != L - 1]      # the sink is slow: everything upstream has to wait for it
+        for i in order:
+            if style == 'chaos':
+                for _ in range(rng.randint(0, 3)):
+                    evs.append({'k': 'recv', 'i': i} if rng.random() < 0.5 else {'k': 'send', 'i': i, 't': t})
+            else:
+                p = 0.95 if style != 'loose' else 0.7
+                if rng.random() < p: evs.append({'k': 'recv', 'i': i})
+                if rng.random() < 0.15: evs.append({'k': 'recv', 'i': i})
+                if rng.random() < p: evs.append({'k': 'send', 'i': i, 't': t})
+                if rng.random() < 0.15: evs.append({'k': 'send', 'i': i, 't': t})
+    return {'topo': topo, 'evs': evs}
+
+
+def chain_reference(topo, nsrc):
+    """[(id, [[topic, content]])] handed to every node of a chain, by literal composition of the process functions on source frames 0 .. nsrc-1
+    (None drops the frame for everything downstream, {} is delivered as an empty set, a lone Frame as topic main, a callable is called; hidden topics do not
+    reach an all-topics subscriber; ids = the source's consecutive ids of the surviving frames)."""
+    from openfilter.filter_runtime.frame import Frame
+    procs = [mk_proc(b, i) for i, b in enumerate(topo['behs'])]
+    def norm(r):
+        if callable(r): r = r()
+        if r is None: return None
+        if isinstance(r, Frame): return {'main': r}
+        return r
+    ref = [[]]
+    outs, k = [], 0
+    for n in range(nsrc):
+        r = norm(procs[0]({}, n, 0))
+        if r is None: continue
+        outs.append((k, r)); k += 1
+    for i in range(1, len(topo['ups'])):
+        handed = [(k, {t: f for t, f in d.items() if not t.startswith('_')}) for k, d in outs]
+        ref.append([[k, [[t, f.data['c']] for t, f in d.items()]] for k, d in handed])
+        nxt = []
+        for n, (k, d) in enumerate(handed):
+            r = norm(procs[i](d, n, 0))
+            if r is not None: nxt.append((k, r))
+        outs = nxt
+    return ref
+
+
+def chain_oracle(trial, obs, handed):
+    """'net-chain-composition': what a node's process() was handed so far is not a prefix of the composition of the upstream process functions"""
+    nsrc = sum(1 for idx, i, ident, fr in handed if i == 0)
+    ref = chain_reference(trial['topo'], nsrc)
+    v = []
+    for i in range(1, len(trial['topo']['ups'])):
+        got = [[ident, [[t, c] for t, c, _ in fr]] for idx, j, ident, fr in handed if j == i]
+        if got != ref[i][:len(got)]:
+            k = next((a for a, (x, y) in enumerate(zip(got, ref[i])) if x != y), min(len(got), len(ref[i])))
+            v.append(('net-chain-composition', f"node {i}: set #{k} handed to process() is {got[k] if k < len(got) else None}, the composition of the upstream process functions gives "
+                      f"{ref[i][k] if k < len(ref[i]) else None} (handed so far {len(got)}, composition has {len(ref[i])} from {nsrc} source frames)"))
+    return v
+
+# ---------------------------------------------------------------------------------------------- trees (every node has at most one upstream): the same reference
+
+def gen_tree_trial(rng):
+    """one source, every other node subscribes to exactly one earlier node (tees, trees), no restarts"""
+    t = gen_chain_trial(rng)
+    n = len(t['topo']['ups'])
+    extra = rng.randint(1, 3)
+    for _ in range(extra):
+        i = len(t['topo']['ups'])
+        t['topo']['ups'].append([rng.randrange(0, i)])
+        b = dict(rng.choice(t['topo']['behs'][1:] or [{'kind': 'pass'}]))
+        if b['kind'] in ('add', 'sum'): b['name'] = f"{b['name']}_{i}"
+        t['topo']['behs'].append(b)
+    for i in range(1, len(t['topo']['ups'])):
+        if rng.random() < 0.3: t['topo']['ups'][i] = [rng.randrange(0, i)]
+    t['topo']['family'] = 'tree'
+    L = len(t['topo']['ups'])
+    evs, tt = [], 1000
+    style = rng.choice(['flow', 'flow', 'loose', 'chaos', 'late'])
+    late = rng.randrange(1, L)
+    for r in range(rng.randint(8, 22)):
+        tt += rng.choice([100, 100, 100, 50, 1, 0, 6000])
+        order = list(range(L)); rng.shuffle(order)
+        if style == 'late' and r < 6: order = [i for i in order if i != late]      # one consumer shows up late: its publisher runs ahead with the others
+        for i in order:
+            if style == 'chaos':
+                for _ in range(rng.randint(0, 3)): evs.append({'k': 'recv', 'i': i} if rng.random() < 0.5 else {'k': 'send', 'i': i, 't': tt})
+            else:
+                p = 0.95 if style != 'loose' else 0.7
+                if rng.random() < p: evs.append({'k': 'recv', 'i': i})
+                if rng.random() < p: evs.append({'k': 'send', 'i': i, 't': tt})
+    t['evs'] = evs
+    return t
+
+
+def tree_reference(topo, nsrc):
+    from openfilter.filter_runtime.frame import Frame
+    procs = [mk_proc(b, i) for i, b in enumerate(topo['behs'])]
+    def norm(r):
+        if callable(r): r = r()
+        if r is None: return None
+        if isinstance(r, Frame): return {'main': r}
+        return r
+    outs = {}
+    o, k = [], 0
+    for n in range(nsrc):
+        r = norm(procs[0]({}, n, 0))
+        if r is None: continue
+        o.append((k, r)); k += 1
+    outs[0] = o
+    ref = {0: []}
+    for i in range(1, len(topo['ups'])):
+        u = topo['ups'][i][0]
+        handed = [(k, {t: f for t, f in d.items() if not t.startswith('_')}) for k, d in outs[u]]
+        ref[i] = [[k, [[t, f.data['c']] for t, f in d.items()]] for k, d in handed]
+        nxt = []
+        for n, (k, d) in enumerate(handed):
+            r = norm(procs[i](d, n, 0))
+            if r is not None: nxt.append((k, r))
+        outs[i] = nxt
+    return ref
+
+
+def tree_oracle(trial, obs, handed):
+    nsrc = sum(1 for idx, i, ident, fr in handed if i == 0)
+    ref = tree_reference(trial['topo'], nsrc)
+    v = []
+    for i in range(1, len(trial['topo']['ups'])):
+        got = [[ident, [[t, c] for t, c, _ in fr]] for idx, j, ident, fr in handed if j == i]
+        if got != ref[i][:len(got)]:
+            k = next((a for a, (x, y) in enumerate(zip(got, ref[i])) if x != y), min(len(got), len(ref[i])))
+            v.append(('net-tree-composition', f"node {i}: set #{k} handed to process() is {got[k] if k < len(got) else None}, the composition gives {ref[i][k] if k < len(ref[i]) else None}"))
+    return v
